@@ -192,12 +192,14 @@ class World:
 
     # ------------------------------------------------------------ build on both
     def build(self, program, body, versions=None, *, fault=None, hooks=None,
-              model_hooks=None, threads=True, label=None, compare=True):
+              model_hooks=None, threads=True, label=None, compare=True, run_model=True,
+              step_opts=None):
         """Run one build step on the model and on the real library and compare."""
         versions = versions or {}
         sr = StepResult()
         self.steps.append(['build', label, jsonable(versions)] +
-                          ([] if isinstance(label, int) else [body]))
+                          ([] if isinstance(label, int) and not step_opts else [body]) +
+                          ([step_opts] if step_opts else []))
         # ---- model (from scratch)
         mctx = Ctx(program, self.sb, False, versions=versions)
         mask = {env.rel(self.sb, d) for d in self.cache_dirs}
@@ -209,16 +211,22 @@ class World:
         model_disk_before = dict(self.model.disk)
         model_record_before = self.model.record
         had_record = self.model.current_record()
-        try:
-            v = self.api.build_versioned(self.build_name, versions, make_root(mctx, body))
-            sr.mres = ['ok', v]
-        except UserBoom as e:
-            sr.mres = ['exc', 'UserBoom']
-        except Exception as e:
-            if isinstance(e, AssertionError):
-                raise
-            sr.mres = ['exc', errname(e)]
-            sr.model_tb = traceback.format_exc()
+        if not run_model:
+            # the build is expected to fail (crash point / injected fault): the
+            # oracle is the unchanged pre-state, no model run is needed
+            sr.mres = ['exc', '*']
+            self.api.last_build = None
+        else:
+            try:
+                v = self.api.build_versioned(self.build_name, versions, make_root(mctx, body))
+                sr.mres = ['ok', v]
+            except UserBoom as e:
+                sr.mres = ['exc', 'UserBoom']
+            except Exception as e:
+                if isinstance(e, AssertionError):
+                    raise
+                sr.mres = ['exc', errname(e)]
+                sr.model_tb = traceback.format_exc()
         sr.mctx = mctx
         sr.mb = self.api.last_build
         sr.prev_record = had_record
@@ -273,7 +281,7 @@ class World:
         # results
         same_res = sr.mres[0] == sr.rres[0] and (
             type_exact_equal(sr.mres[1], sr.rres[1]) if sr.mres[0] == 'ok'
-            else sr.mres[1] == sr.rres[1])
+            else (sr.mres[1] == sr.rres[1] or sr.mres[1] == '*'))
         # queries (aligned per executing function instance)
         mq = {}
         for where, kind, r, mode, ans in mctx.qlog:
